@@ -99,6 +99,39 @@ func use(a, b *T) (bool, int, *T, string) {
 	return deriveEqual(a, b), deriveCompare(a, b), deriveClone(a), deriveGoString(a)
 }
 `}},
+		{name: "same-named-imports-direct-arguments", args: []string{"./p"}, files: pkgFiles{"ext/ext.go": ext, "ext2/ext/ext.go": ext2, "p/a.go": `package p
+
+import (
+	ext "example.com/m/ext"
+	ext2 "example.com/m/ext2/ext"
+)
+
+func use(a, b ext.Pub, o ext2.Pub, c ext2.Pub) (bool, string, uint64, int) {
+	return deriveEqual(a, b), deriveGoString(o), deriveHash(c), deriveCompare(a, b)
+}
+`}},
+		{name: "user-functions-and-reserved-names", args: []string{"."}, files: pkgFiles{"a.go": `package m
+
+type T struct {
+	A []int
+	M map[string][]int
+}
+
+func deriveEqual_(x int) int  { return x }
+func deriveHash_(x int) int   { return x }
+func deriveCompare_(x int) int { return x }
+
+var _ = deriveEqual_(1) + deriveHash_(2) + deriveCompare_(3)
+
+func use(a, b *T) (bool, uint64, int) {
+	return deriveEqual(a, b), deriveHash(a), deriveCompare(a, b)
+}
+`, "b.go": `package m
+
+func helper(x int) int { return x }
+
+var _ = helper(1)
+`}},
 		{name: "several-packages", args: []string{"./..."}, files: pkgFiles{
 			"a/a.go": "package a\n\ntype A struct {\n\tX int\n\tS []string\n\ttags []string\n}\n\nfunc use(x, y *A) bool {\n\treturn deriveEqual(x, y)\n}\n",
 			"b/b.go": "package b\n\ntype B struct {\n\tM map[string]int\n}\n\nfunc use(x, y *B) int {\n\treturn deriveCompare(x, y)\n}\n",
@@ -320,8 +353,10 @@ func c08Invocations(rep *Reporter) int {
 		"store/store.go": "package store\n\ntype Record struct {\n\tID   int\n\tName string\n\ttags []string\n\tmeta map[string]int\n}\n\nfunc same(a, b *Record) bool {\n\treturn deriveEqual(a, b)\n}\n",
 		"api/api.go":     "package api\n\nimport \"example.com/m/store\"\n\ntype Req struct {\n\tR *store.Record\n\tL []store.Record\n}\n\nfunc same(a, b *Req) (bool, int) {\n\treturn deriveEqual(a, b), deriveCompare(a.R, b.R)\n}\n",
 		"util/util.go":   "package util\n\nfunc keys(m map[string]int) []string {\n\treturn deriveSort(deriveKeys(m))\n}\n",
+		// textually the same nested call as in util (needs a second pass in both packages)
+		"bill/bill.go": "package bill\n\nfunc keys(m map[string]int) []string {\n\treturn deriveSort(deriveKeys(m))\n}\n\nfunc same(a, b []string) bool {\n\treturn deriveEqual(a, b)\n}\n",
 	}
-	pkgs := []string{"store", "api", "util"}
+	pkgs := []string{"store", "api", "util", "bill"}
 	solo := map[string]string{}
 	for _, p := range pkgs {
 		dir := filepath.Join(scratchDir, "c08", "solo-"+p)
@@ -349,12 +384,25 @@ func c08Invocations(rep *Reporter) int {
 	}
 	var invs []inv
 	// every non-empty subset x every ordering x every spelling vector (same spelling for all, and mixed)
-	for mask := 1; mask < 8; mask++ {
+	for mask := 1; mask < 1<<uint(len(pkgs)); mask++ {
 		var sub []string
 		for i, p := range pkgs {
 			if mask&(1<<uint(i)) != 0 {
 				sub = append(sub, p)
 			}
+		}
+		if len(sub) == 4 {
+			// all four: every ordering with one spelling each (the spelling product is covered on the smaller subsets)
+			for _, perm := range permutations(sub) {
+				for how := 0; how < 3; how++ {
+					var args []string
+					for _, p := range perm {
+						args = append(args, spell(p, how))
+					}
+					invs = append(invs, inv{args, perm})
+				}
+			}
+			continue
 		}
 		for _, perm := range permutations(sub) {
 			nsp := 1
